@@ -187,15 +187,20 @@ func (d *down) Completion(_ context.Context, p *protocol.CompletionParams) (*pro
 	if d.cur.Nil {
 		return nil, nil
 	}
-	it := protocol.CompletionItem{Label: "Item", Detail: d.cur.Detail}
-	if len(d.cur.Answer) > 0 {
-		it.TextEdit = &protocol.TextEdit{Range: toRange(d.cur.Answer[0].R), NewText: "Item"}
+	// one item per detail (details separated by 0x1F)
+	var items []protocol.CompletionItem
+	for _, detail := range strings.Split(d.cur.Detail, "\x1f") {
+		it := protocol.CompletionItem{Label: "Item", Detail: detail}
+		if len(d.cur.Answer) > 0 {
+			it.TextEdit = &protocol.TextEdit{Range: toRange(d.cur.Answer[0].R), NewText: "Item"}
+		}
+		if detail != "" {
+			// gopls attaches the import as an additional edit to the generated file
+			it.AdditionalTextEdits = []protocol.TextEdit{{Range: protocol.Range{Start: protocol.Position{Line: 4}, End: protocol.Position{Line: 4}}, NewText: "import X\n"}}
+		}
+		items = append(items, it)
 	}
-	if d.cur.Detail != "" {
-		// gopls attaches the import as an additional edit to the generated file
-		it.AdditionalTextEdits = []protocol.TextEdit{{Range: protocol.Range{Start: protocol.Position{Line: 4}, End: protocol.Position{Line: 4}}, NewText: "import X\n"}}
-	}
-	return &protocol.CompletionList{Items: []protocol.CompletionItem{it}}, nil
+	return &protocol.CompletionList{Items: items}, nil
 }
 func (d *down) CodeLens(_ context.Context, p *protocol.CodeLensParams) ([]protocol.CodeLens, error) {
 	emit("D CodeLens %s", p.TextDocument.URI)
